@@ -94,7 +94,8 @@ class C13(Check):
                   'PROVIDED each fault raises one of the classes listed in Props/C13.lean (`covered`: KeyError, '
                   'AttributeError, IndexError, ValueError and its Unicode subclasses, TypeError, ExpatError) — an OSError '
                   'such as PermissionError or, for loose files, '
-                  'FileNotFoundError is NOT covered and provably escapes (C13_uncovered_class_escapes); strict mode '
+                  'FileNotFoundError is NOT covered: a class no regenerated clause handles provably escapes, whatever the '
+                  'tables are (C13_uncovered_class_escapes); strict mode '
                   'yields the goods before the first bad .xml member and raises its exception; non-XML members '
                   '(name without .xml, ExpatError) are skipped in both modes.  MEASURED per run, not proved: which '
                   'exception class each fault kind raises in the single-file parser.  Histories (input field `passes`): '
